@@ -350,6 +350,14 @@ def check(P, R):
     # the assignment a match reports is complete: make_params_dict drops anonymous names only (premise shared with C01.f)
     from . import c01 as _c01
     _c01.check_params_filter(P, R, 'C19.a', 'url() built from the assignment a match reports needs every named wildcard of the rule, also those that matched 0 or ""')
+    # the assignments url() is fed with are those the matcher reports for this rule: the clauses that make a match report the rule's own names and values
+    # are premises here (a stale value in the back-tracking record, a wildcard node shared with a rule of another filter, names wiped by remove_hook all make
+    # "matching, then building" fail although url() itself is right)
+    from ..report import run_premise
+    from . import c11 as _c11
+    why_ = 'every parameter assignment a rule produces by matching builds a URL that the rule matches with the same values'
+    run_premise(R, _c01, P, {'C01.c'}, 'C19.a', why_)
+    run_premise(R, _c11, P, {'C11.b', 'C11.e'}, 'C19.a', why_)
     f = P.func(f'{RR}:Route.url')
     g, rd = f.cfg, f.rd
     # shape-independent first: the URL is assembled in an object of this call (a route is shared by all requests, and a build that is rejected half-way
